@@ -271,7 +271,7 @@ class Gen:
             return self.new_fn([self.st([self.in_field(), self.field("A", u(self.slice_of(ty)), {"group": r.choice(["g,bogus", "g,flatten", ",soft", "g,soft,zzz", ","])})])], [u(r.choice(PT))])
         if c == 11:  # group param not a slice / named group / optional group
             tags = r.choice([{"group": "g"}, {"group": "g", "name": "n1"}, {"group": "g", "optional": "true"}])
-            t = u(ty) if tags == {"group": "g"} else u(self.slice_of(ty))
+            t = u(r.choice([ty, 19, 70, 20, 21])) if tags == {"group": "g"} else u(self.slice_of(ty))
             return self.new_fn([self.st([self.in_field(), self.field("A", t, tags)])], [u(r.choice(PT))])
         if c == 12:  # bad group result tags
             tags = r.choice([{"group": "g,soft"}, {"group": "g,flatten"}, {"group": ",flatten"}, {"group": "g", "name": "x"},
